@@ -331,6 +331,16 @@ def h2Fields (o : Opts) (maxField : Nat) (r : PReq) (c : H2Ctx) (fs : List (Byte
   | .error e => .error e
   | .ok (r, c) => if c.pseudo then validatePseudo o r c else .ok (r, c)
 
+/-- r->http_method when the field loop stopped: http_request_parse_header() stores it as soon as
+    `:method` is seen, and it stays when a later field (or the pseudo-header check) is rejected —
+    the error response to a rejected HEAD has no body -/
+def h2StopMethod (o : Opts) (maxField : Nat) : PReq × H2Ctx → List (Bytes × Bytes) → Bytes
+  | rc, [] => rc.1.method
+  | rc, kv :: rest =>
+    match h2Field o maxField rc kv with
+    | .ok rc' => h2StopMethod o maxField rc' rest
+    | .error _ => rc.1.method
+
 /-- h2_recv_headers() (after h2_init_stream()) + http_request_headers_process_h2();
     `endStream` = END_STREAM flag on the HEADERS frame -/
 def parseIntoH2C (s : ReqCore) (fs : List (Bytes × Bytes)) (endStream : Bool) : IntoRes ReqCore :=
@@ -339,7 +349,9 @@ def parseIntoH2C (s : ReqCore) (fs : List (Bytes × Bytes)) (endStream : Bool) :
   let pre := { toPReq s.toReqLive with version := 2 }
   let hlen := (fs.map fun kv => kv.1.length + kv.2.length + 4).sum + 2
   match h2Fields o s.conf.maxRequestFieldSize pre { ext := s.h2ConnectExt } fs with
-  | .error e => .done (s.onLive fun l => storeError { l with version := 2 } e 2 (-1))
+  | .error e =>
+    .done (s.onLive fun l => storeError { l with version := 2 } e 2
+             (methodId (h2StopMethod o s.conf.maxRequestFieldSize (pre, { ext := s.h2ConnectExt }) fs)))
   | .ok (r, c) =>
     let special := (r.method = ofString "CONNECT" && !c.ext) || (r.method = ofString "OPTIONS" && r.target = [42])
     match parsePostV o 80 c.ext r with
@@ -359,11 +371,13 @@ inductive FsNode
 deriving Repr, DecidableEq
 
 /-- a conditional configuration block `$HTTP["url"] =^ prefix { ... }` / `$HTTP["host"] == h { ... }` /
-    `$REQUEST_HEADER[name] == v { ... }` with the settings the model knows -/
+    `$REQUEST_HEADER[name] == v { ... }` / `$HTTP["request-method"] == m { ... }` with the settings the
+    model knows -/
 inductive Cond
   | urlPrefix (p : Bytes)
   | hostEq (h : Bytes)
   | headerEq (lcName v : Bytes)
+  | methodIs (name : Bytes)
 deriving Repr, DecidableEq
 
 structure Scope where
@@ -399,6 +413,7 @@ def evalCond (s : ReqCore) : Cond → Bool
     match s.rqstHeaders.find? (fun e => e.2.1.map toLower = n) with
     | some e => e.2.2 = v
     | none => v.isEmpty
+  | .methodIs m => methodName s.method = m
 
 def applyScope (c : Conf) (sc : Scope) : Conf :=
   { c with extra := sc.extra.getD c.extra,
